@@ -23,6 +23,7 @@ import (
 	"net"
 	"os"
 	"path/filepath"
+	"runtime"
 	"strings"
 	"sync"
 	"testing"
@@ -68,6 +69,18 @@ func noteFrozen(name string, p plan, rec *runRec) {
 	}
 	b, _ := json.Marshal(map[string]any{"plan": p, "goroutines": rec.Res.Goroutines})
 	_ = os.WriteFile(filepath.Join(d, fmt.Sprintf("frozen.%s.%d.json", name, time.Now().UnixNano())), b, 0o644)
+}
+
+// singleP runs a test on one P. Go 1.25.0's runtime allocates synctest bubble specials
+// (runtime.getOrSetBubbleSpecial, reached from sync.WaitGroup.Add inside a bubble) from a fixalloc
+// without taking mheap_.speciallock; two goroutines doing that at the same time corrupt a span's
+// specials list and the process hangs for ever inside the runtime (seen about once per 75 runs of
+// 400 cases: these scenarios start many dials, each with a new WaitGroup in rueidis' mux, at the
+// same virtual instant). With a single P the allocation cannot run concurrently. The returned
+// function restores the previous setting.
+func singleP() func() {
+	prev := runtime.GOMAXPROCS(1)
+	return func() { runtime.GOMAXPROCS(prev) }
 }
 
 func queueLabel() string {
@@ -175,25 +188,25 @@ type evSpec struct {
 }
 
 type plan struct {
-	Client     string    `json:"client"` // sentinel standalone
-	Mode       string    `json:"mode"`   // primary replicaonly sendtoreplicas (standalone: sendtoreplicas)
-	Pred       predSpec  `json:"pred"`
-	Sel        *selSpec  `json:"sel,omitempty"`
-	AZInfo     bool      `json:"az_info,omitempty"`
-	Multiplex  int       `json:"multiplex"`
-	RESP2      bool      `json:"resp2,omitempty"`
-	NoCache    bool      `json:"no_cache,omitempty"`
-	Retry      bool      `json:"retry"`
-	Pipelining bool      `json:"pipelining,omitempty"`
-	Sentinels  int       `json:"sentinels"`
-	Nodes      int       `json:"nodes"`
-	Master     int       `json:"master"`
-	Anchor     int       `json:"anchor"`
-	InitViews  []int     `json:"init_views,omitempty"`
-	InitAddr   []int     `json:"init_addr,omitempty"`
-	Hist       []evSpec  `json:"hist,omitempty"`
-	EndMs      int       `json:"end_ms"`
-	Ops        []opSpec  `json:"ops"`
+	Client     string   `json:"client"` // sentinel standalone
+	Mode       string   `json:"mode"`   // primary replicaonly sendtoreplicas (standalone: sendtoreplicas)
+	Pred       predSpec `json:"pred"`
+	Sel        *selSpec `json:"sel,omitempty"`
+	AZInfo     bool     `json:"az_info,omitempty"`
+	Multiplex  int      `json:"multiplex"`
+	RESP2      bool     `json:"resp2,omitempty"`
+	NoCache    bool     `json:"no_cache,omitempty"`
+	Retry      bool     `json:"retry"`
+	Pipelining bool     `json:"pipelining,omitempty"`
+	Sentinels  int      `json:"sentinels"`
+	Nodes      int      `json:"nodes"`
+	Master     int      `json:"master"`
+	Anchor     int      `json:"anchor"`
+	InitViews  []int    `json:"init_views,omitempty"`
+	InitAddr   []int    `json:"init_addr,omitempty"`
+	Hist       []evSpec `json:"hist,omitempty"`
+	EndMs      int      `json:"end_ms"`
+	Ops        []opSpec `json:"ops"`
 }
 
 // qualifies: would SendToReplicas allow this op to go to a replica (every member for a batch).
@@ -887,12 +900,12 @@ type switchPush struct {
 }
 
 type obs struct {
-	connKind map[string]map[int]byte
-	closeAt  map[string]map[int]int64
-	roles    map[string]map[byte][]roleAns
-	reports  []masterReport
-	pushes   []switchPush
-	user     []userRecv
+	connKind      map[string]map[int]byte
+	closeAt       map[string]map[int]int64
+	roles         map[string]map[byte][]roleAns
+	reports       []masterReport
+	pushes        []switchPush
+	user          []userRecv
 	wrongRoleSeen bool
 }
 
